@@ -1,12 +1,18 @@
 #!/bin/bash
-# runs every seeded defect (/verif/seeded/<id>-n, or not-yet-confirmed ones under /tmp/seed2) against the check of its property;
+# runs every seeded defect (/verif/seeded/<id>-n, or not-yet-confirmed ones under /tmp/seed2..4) against the check of its property;
 # each must yield exit 1 + VIOLATION.  usage: regress_seeded.sh [parallelism]
 par=${1:-4}
 list=$(mktemp)
 for id in C01 C02 C03 C04 C05 C06 C07 C08 C09 C10 C11 C12 C13 C14 C16 C17 C18 C19; do
-  for n in 1 2 3 4 5 6; do
+  for n in 1 2 3 4 5 6 7 8; do
     p=/verif/seeded/$id-$n/patch.diff
-    [ -f $p ] || { [ $n -ge 3 ] && p=/tmp/seed2/$id/out/$((n-2))/patch.diff; }
+    if [ ! -f $p ]; then
+      case $n in
+        3|4) p=/tmp/seed2/$id/out/$((n-2))/patch.diff ;;
+        5|6) p=/tmp/seed3/$id/out/$((n-4))/patch.diff ;;
+        7|8) p=/tmp/seed4/$id/out/$((n-6))/patch.diff ;;
+      esac
+    fi
     [ -f $p ] || continue
     echo "$id $n $p" >> $list
   done
